@@ -142,7 +142,7 @@ val hash_of_action : action -> name list -> hashres
 
 val cy_hash : bool -> opts -> user -> field list -> hashres
 
-val cy_match_args : opts -> user -> field list -> name list option
+val cy_match_args : bool -> opts -> user -> field list -> name list option
 
 type src =
 | SParam
@@ -212,7 +212,7 @@ type decisions = { d_rejected : bool; d_sig : sigres;
                    d_match : name list option; d_body : (name * src) list;
                    d_post : name list option }
 
-val cy_decide : bool -> opts -> user -> field list -> decisions
+val cy_decide : bool -> bool -> opts -> user -> field list -> decisions
 
 val py_decide : opts -> user -> field list -> decisions
 
